@@ -372,8 +372,15 @@ fn append_txt_record(
     if value.len() > MAX_TXT_VALUE_LENGTH {
         return Err(MdnsResponseError::TxtRecordTooLong);
     }
-    let mut buffer = vec![value.len() as u8];
+    // The length byte counts the character-string as written, i.e. including the quotes and
+    // escapes that `append_character_string` adds for values containing spaces.
+    let mut buffer = vec![0];
     append_character_string(&mut buffer, value)?;
+    let written = buffer.len() - 1;
+    if written > MAX_TXT_VALUE_LENGTH {
+        return Err(MdnsResponseError::TxtRecordTooLong);
+    }
+    buffer[0] = written as u8;
 
     append_u16(out, buffer.len() as u16);
     out.extend_from_slice(&buffer);
